@@ -204,6 +204,59 @@ Definition Codec_ts_projection_full : Prop :=
 (* generic round trip                                                                                 *)
 (* ------------------------------------------------------------------------------------------------ *)
 
+(* ------------------------------------------------------------------------------------------------ *)
+(* strings                                                                                            *)
+(* ------------------------------------------------------------------------------------------------ *)
+
+Lemma Codec_strip_snoc0 : forall l, Codec_strip (l ++ [0]) = Codec_strip l.
+Proof.
+  induction l as [|x r IH]; cbn [app Codec_strip]; auto. rewrite IH. reflexivity.
+Qed.
+Lemma Codec_strip_zeros : forall k l, Codec_strip (l ++ repeat 0 k) = Codec_strip l.
+Proof.
+  induction k; intros l; cbn [repeat].
+  - rewrite app_nil_r. reflexivity.
+  - replace (l ++ 0 :: repeat 0 k) with ((l ++ [0]) ++ repeat 0 k) by (rewrite <- app_assoc; reflexivity).
+    rewrite IHk. apply Codec_strip_snoc0.
+Qed.
+Lemma Codec_strip_idem : forall l, Codec_strip (Codec_strip l) = Codec_strip l.
+Proof.
+  induction l as [|x r IH]; cbn [Codec_strip]; auto.
+  destruct (Codec_strip r) as [|y r'] eqn:E.
+  - destruct (x =? 0) eqn:Z0; cbn [Codec_strip]; auto. rewrite Z0. reflexivity.
+  - cbn [Codec_strip]. cbn [Codec_strip] in IH. rewrite IH. reflexivity.
+Qed.
+Lemma Codec_strip_length : forall l, (length (Codec_strip l) <= length l)%nat.
+Proof.
+  induction l as [|x r IH]; cbn [Codec_strip length]; auto.
+  destruct (Codec_strip r) as [|y r'].
+  - destruct (x =? 0); cbn; lia.
+  - cbn [length] in *. lia.
+Qed.
+Lemma Codec_strip_ok : forall l, Codec_bytes_ok l = true -> Codec_bytes_ok (Codec_strip l) = true.
+Proof.
+  induction l as [|x r IH]; intros H; cbn [Codec_strip]; auto.
+  cbn in H. apply andb_true_iff in H as [H1 H2]. specialize (IH H2).
+  destruct (Codec_strip r) as [|y r'].
+  - destruct (x =? 0); cbn; auto. rewrite H1. reflexivity.
+  - cbn. cbn in IH. rewrite H1, IH. reflexivity.
+Qed.
+Lemma Codec_repeat0_ok : forall k, Codec_bytes_ok (repeat 0 k) = true.
+Proof. induction k; cbn; auto. Qed.
+Lemma Codec_str_dec_some : forall h sv, Codec_str_dec h = Some sv -> sv = Codec_strip h /\ Codec_utf8_ok sv = true.
+Proof.
+  unfold Codec_str_dec. intros h sv H. destruct (Codec_utf8_ok (Codec_strip h)) eqn:U; inversion H; subst. auto.
+Qed.
+Lemma Codec_str_dec_padded : forall h sv k, Codec_str_dec h = Some sv -> Codec_str_dec (sv ++ repeat 0 k) = Some sv.
+Proof.
+  intros h sv k H. apply Codec_str_dec_some in H as [-> U]. unfold Codec_str_dec.
+  rewrite Codec_strip_zeros, Codec_strip_idem, U. reflexivity.
+Qed.
+
+(* ------------------------------------------------------------------------------------------------ *)
+(* generic round trip                                                                                 *)
+(* ------------------------------------------------------------------------------------------------ *)
+
 Section RoundTrip.
   Variable AD : Codec_adapter -> Z -> option Codec_fval.
   Hypothesis AD_ok : forall top k a z v, Codec_wf_adapter top k a = true -> Codec_not_count a ->
@@ -229,7 +282,7 @@ Section RoundTrip.
     induction its as [|it its IH]; intros b r rest W B D.
     - cbn in D. inversion D; subst. exists []. cbn. repeat split; auto.
     - cbn in W. apply andb_true_iff in W as [Wi W].
-      destruct it as [id k a | ps].
+      destruct it as [id k a | ps | id n].
       + cbn [Codec_dec_items] in D.
         destruct (Codec_take (Codec_ksize k) b) as [[h t]|] eqn:T; try discriminate.
         destruct (AD a (Codec_kdec k h)) as [v|] eqn:A; try discriminate.
@@ -241,23 +294,41 @@ Section RoundTrip.
         destruct (Codec_field_rt false k a h v L Bh Wi NC A) as (z' & E & Rz & D').
         destruct (IH _ _ _ W Bt R) as (bs & Eb & Lb & Ob & Or & Sb & Rb).
         exists (Codec_kenc k z' ++ bs). cbn [Codec_enc_items]. rewrite N.eqb_refl, E, Rz, Eb.
-        repeat split; auto.
-        * rewrite !app_length, Codec_kenc_length. lia.
-        * rewrite Codec_bytes_ok_app, Codec_kenc_ok, Ob. auto.
-        * rewrite app_length, Codec_kenc_length. unfold Codec_items_size in *. cbn [fold_right Codec_item_size]. lia.
-        * intros tail. cbn [Codec_dec_items]. rewrite <- app_assoc.
-          rewrite <- (Codec_kenc_length k z') at 1. rewrite Codec_take_app. rewrite D', Rb. auto.
+        split; [reflexivity|]. split; [rewrite !app_length, Codec_kenc_length; lia|].
+        split; [rewrite Codec_bytes_ok_app, Codec_kenc_ok, Ob; reflexivity|]. split; [exact Or|].
+        split; [rewrite app_length, Codec_kenc_length; unfold Codec_items_size in *; cbn [fold_right Codec_item_size]; lia|].
+        intros tail. cbn [Codec_dec_items]. rewrite <- app_assoc.
+        rewrite <- (Codec_kenc_length k z') at 1. rewrite Codec_take_app. rewrite D', Rb. reflexivity.
       + cbn [Codec_dec_items] in D.
         destruct (Codec_take (length ps) b) as [[h t]|] eqn:T; try discriminate.
         apply Codec_take_some in T as [-> L].
         rewrite Codec_bytes_ok_app in B. apply andb_true_iff in B as [Bh Bt].
         destruct (IH _ _ _ W Bt D) as (bs & Eb & Lb & Ob & Or & Sb & Rb).
         exists (ps ++ bs). cbn [Codec_enc_items]. rewrite Eb. cbn in Wi.
-        repeat split; auto.
-        * rewrite !app_length. lia.
-        * rewrite Codec_bytes_ok_app, Wi, Ob. auto.
-        * rewrite app_length. unfold Codec_items_size in *. cbn [fold_right Codec_item_size]. lia.
-        * intros tail. cbn [Codec_dec_items]. rewrite <- app_assoc. rewrite Codec_take_app. apply Rb.
+        split; [reflexivity|]. split; [rewrite !app_length; lia|].
+        split; [rewrite Codec_bytes_ok_app, Wi, Ob; reflexivity|]. split; [exact Or|].
+        split; [rewrite app_length; unfold Codec_items_size in *; cbn [fold_right Codec_item_size]; lia|].
+        intros tail. cbn [Codec_dec_items]. rewrite <- app_assoc. rewrite Codec_take_app. apply Rb.
+      + cbn [Codec_dec_items] in D.
+        destruct (Codec_take n b) as [[h t]|] eqn:T; try discriminate.
+        destruct (Codec_str_dec h) as [sv|] eqn:S; try discriminate.
+        destruct (Codec_dec_items AD its t) as [[e rest']|] eqn:R; try discriminate.
+        inversion D; subst. apply Codec_take_some in T as [-> L]. subst n.
+        rewrite Codec_bytes_ok_app in B. apply andb_true_iff in B as [Bh Bt].
+        destruct (IH _ _ _ W Bt R) as (bs & Eb & Lb & Ob & Or & Sb & Rb).
+        pose proof (Codec_str_dec_some _ _ S) as [Es Us].
+        assert (Ls : (length sv <= length h)%nat) by (rewrite Es; apply Codec_strip_length).
+        assert (Os : Codec_bytes_ok sv = true) by (rewrite Es; apply Codec_strip_ok; auto).
+        assert (Lp : length (sv ++ repeat 0 (length h - length sv)) = length h) by (rewrite app_length, repeat_length; lia).
+        exists (sv ++ repeat 0 (length h - length sv) ++ bs). cbn [Codec_enc_items]. rewrite N.eqb_refl, Os, Eb.
+        replace (length sv <=? length h)%nat with true by (symmetry; apply Nat.leb_le; lia). cbn [andb].
+        split; [reflexivity|]. split; [rewrite !app_length, repeat_length; lia|].
+        split; [rewrite !Codec_bytes_ok_app, Os, Codec_repeat0_ok, Ob; reflexivity|]. split; [exact Or|].
+        split; [rewrite !app_length, repeat_length; unfold Codec_items_size in *; cbn [fold_right Codec_item_size]; lia|].
+        intros tail. cbn [Codec_dec_items].
+        replace ((sv ++ repeat 0 (length h - length sv) ++ bs) ++ tail) with ((sv ++ repeat 0 (length h - length sv)) ++ (bs ++ tail))
+          by (rewrite <- !app_assoc; reflexivity).
+        rewrite <- Lp at 1. rewrite Codec_take_app. rewrite (Codec_str_dec_padded _ _ _ S), Rb. reflexivity.
   Qed.
 
   Lemma Codec_recs_rt : forall its n b rs rest,
@@ -277,12 +348,10 @@ Section RoundTrip.
       destruct (Codec_items_rt _ _ _ _ W B I) as (b1 & E1 & L1 & O1 & Ot & S1 & R1).
       destruct (IH _ _ _ W Ot R) as (b2 & E2 & L2 & O2 & Or & Ln & S2 & R2).
       exists (b1 ++ b2). cbn [Codec_enc_recs]. rewrite E1, E2.
-      repeat split; auto.
-      + rewrite app_length. lia.
-      + rewrite Codec_bytes_ok_app, O1, O2. auto.
-      + cbn. lia.
-      + rewrite app_length. lia.
-      + intros tail. cbn [Codec_dec_recs]. rewrite <- app_assoc, R1, R2. auto.
+      split; [reflexivity|]. split; [rewrite app_length; lia|].
+      split; [rewrite Codec_bytes_ok_app, O1, O2; reflexivity|]. split; [exact Or|].
+      split; [cbn; lia|]. split; [rewrite app_length; lia|].
+      intros tail. cbn [Codec_dec_recs]. rewrite <- app_assoc, R1, R2. reflexivity.
   Qed.
 End RoundTrip.
 
@@ -320,6 +389,54 @@ Proof.
   intros a x b H I. apply NoDup_remove_2 in H. apply H. apply in_or_app. auto.
 Qed.
 
+Lemma Codec_list_eqb_eq : forall a b, Codec_list_eqb a b = true -> a = b.
+Proof.
+  induction a as [|x a IH]; intros [|y b] H; cbn in H; try discriminate; auto.
+  apply andb_true_iff in H as [H1 H2]. apply Z.eqb_eq in H1. subst. f_equal. auto.
+Qed.
+Lemma Codec_list_eqb_refl : forall a, Codec_list_eqb a a = true.
+Proof. induction a; cbn; auto. rewrite Z.eqb_refl, IHa. reflexivity. Qed.
+
+Lemma Codec_assoc_forall : forall (P : list Codec_item -> bool) cases t its,
+  forallb (fun c => P (snd c)) cases = true -> Codec_assoc t cases = Some its -> P its = true.
+Proof.
+  induction cases as [|[v x] cases IH]; intros t its F A; cbn in *; try discriminate.
+  apply andb_true_iff in F as [F1 F2]. destruct (t =? v).
+  - inversion A; subst. exact F1.
+  - eapply IH; eauto.
+Qed.
+
+(* side conditions of the wires, as propositions *)
+Definition Codec_items_ok (its : list Codec_item) : Prop := forallb (Codec_wf_item false) its = true.
+Definition Codec_cases_ok (cases : list (Z * list Codec_item)) : Prop :=
+  forall t its, Codec_assoc t cases = Some its -> Codec_items_ok its.
+Definition Codec_mode_ok (l : Codec_blen) (m : Codec_bmode) : Prop :=
+  match m with
+  | BRaw => True
+  | BStr => exists cnt, l = LCount cnt
+  | BRewrite _ _ src dst => length src = length dst /\ Codec_list_eqb src dst = false /\ Codec_bytes_ok dst = true
+  end.
+Definition Codec_spec_ok (s : Codec_tagspec) : Prop :=
+  Codec_cases_ok (tg_cases s) /\
+  match tg_sub s with None => True | Some (_, hitems, _, subcases) => Codec_items_ok hitems /\ Codec_cases_ok subcases end.
+
+Lemma Codec_dec_items_len : forall AD its b r rest, Codec_dec_items AD its b = Some (r, rest) ->
+  length b = (Codec_items_size its + length rest)%nat.
+Proof.
+  induction its as [|[id k a | ps | id n] its IH]; intros b r rest H; cbn [Codec_dec_items] in H.
+  - inversion H; subst. reflexivity.
+  - destruct (Codec_take (Codec_ksize k) b) as [[h t]|] eqn:T; try discriminate.
+    destruct (AD a (Codec_kdec k h)); try discriminate.
+    destruct (Codec_dec_items AD its t) as [[e rest']|] eqn:R; try discriminate. inversion H; subst.
+    apply Codec_take_some in T as [-> L]. rewrite app_length, (IH _ _ _ R). unfold Codec_items_size. cbn [fold_right Codec_item_size]. lia.
+  - destruct (Codec_take (length ps) b) as [[h t]|] eqn:T; try discriminate.
+    apply Codec_take_some in T as [-> L]. rewrite app_length, (IH _ _ _ H). unfold Codec_items_size. cbn [fold_right Codec_item_size]. lia.
+  - destruct (Codec_take n b) as [[h t]|] eqn:T; try discriminate.
+    destruct (Codec_str_dec h); try discriminate.
+    destruct (Codec_dec_items AD its t) as [[e rest']|] eqn:R; try discriminate. inversion H; subst.
+    apply Codec_take_some in T as [-> L]. rewrite app_length, (IH _ _ _ R). unfold Codec_items_size. cbn [fold_right Codec_item_size]. lia.
+Qed.
+
 Section Wire.
   Variable AD : Codec_adapter -> Z -> option Codec_fval.
   Hypothesis AD_ok : forall top k a z v, Codec_wf_adapter top k a = true -> Codec_not_count a ->
@@ -348,44 +465,210 @@ Section Wire.
     replace ((c <? 0) || (Z.of_nat (length b) <? c)) with false by lia. reflexivity.
   Qed.
 
-  Lemma Codec_dec_one_keys : forall w acc b ents b', Codec_dec_one AD w acc b = Some (ents, b') -> map fst ents = Codec_wire_id w.
+  (* the bytes of the wire that a length specification selects *)
+  Definition Codec_split (acc : Codec_env) (l : Codec_blen) (b : list Z) : option (list Z * list Z) :=
+    match l with
+    | LFixed n => Codec_take n b
+    | LCount cnt => match Codec_count acc cnt b with None => None | Some n => Codec_take n b end
+    | LGreedy => Some (b, [])
+    end.
+
+  Lemma Codec_dec_one_keys : forall ST w acc b ents b', Codec_dec_one AD ST w acc b = Some (ents, b') -> map fst ents = Codec_wire_id w.
   Proof.
-    intros w acc b ents b' H. destruct w as [it | id cnt body | id l]; cbn in H.
-    - destruct it as [id k a | ps].
+    intros ST w acc b ents b' H. destruct w as [it | id cnt body | id l m | id tag cases | id s]; cbn in H.
+    - destruct it as [id k a | ps | id n].
       + destruct (Codec_take (Codec_ksize k) b) as [[h t]|]; try discriminate.
         destruct (AD a (Codec_kdec k h)); try discriminate. inversion H; subst. reflexivity.
       + destruct (Codec_take (length ps) b) as [[h t]|]; try discriminate. inversion H; subst. reflexivity.
+      + destruct (Codec_take n b) as [[h t]|]; try discriminate.
+        destruct (Codec_str_dec h); try discriminate. inversion H; subst. reflexivity.
     - destruct (Codec_count acc cnt b); try discriminate.
       destruct (Codec_dec_recs AD body n b) as [[rs t]|]; try discriminate. inversion H; subst. reflexivity.
-    - destruct l.
-      + destruct (Codec_take n b) as [[h t]|]; try discriminate. inversion H; subst. reflexivity.
-      + destruct (Codec_count acc cnt b); try discriminate.
-        destruct (Codec_take n b) as [[h t]|]; try discriminate. inversion H; subst. reflexivity.
+    - destruct (match l with LFixed n => Codec_take n b | LCount cnt => match Codec_count acc cnt b with None => None | Some n => Codec_take n b end | LGreedy => Some (b, []) end) as [[h t]|]; try discriminate.
+      destruct (Codec_bdec ST acc m h); try discriminate. inversion H; subst. reflexivity.
+    - destruct (Codec_lookup_int acc tag); try discriminate. destruct (Codec_assoc z cases).
+      + destruct (Codec_dec_items AD l b) as [[r rest]|]; try discriminate. inversion H; subst. reflexivity.
       + inversion H; subst. reflexivity.
+    - destruct (Codec_count acc (tg_len s) b); try discriminate.
+      destruct (Codec_take n b) as [[R t]|]; try discriminate.
+      destruct (Codec_tag_dec AD ST s acc R); try discriminate. inversion H; subst. reflexivity.
   Qed.
 
-  (* after a successful decode every counted part has exactly as many elements as its count field says *)
-  Lemma Codec_dec_counts : forall d done b e rest,
-    Codec_dec_wire AD d done b = Some (e, rest) -> NoDup (map fst done ++ Codec_ids d) ->
+  (* ---- byte-string modes ---- *)
+  Lemma Codec_bdec_rt : forall acc l m h v, Codec_bdec true acc m h = Some v -> Codec_mode_ok l m -> Codec_bytes_ok h = true ->
+    length v = length h /\ Codec_bytes_ok v = true /\ Codec_bdec false acc m v = Some v.
+  Proof.
+    intros acc l m h v D M B. destruct m as [| | tag vals src dst]; cbn [Codec_bdec] in *.
+    - inversion D; subst. auto.
+    - destruct (Codec_str_dec h) as [sv|] eqn:S; try discriminate.
+      destruct (Nat.eqb (length sv) (length h)) eqn:E; cbn in D; try discriminate. inversion D; subst.
+      apply Nat.eqb_eq in E. pose proof (Codec_str_dec_some _ _ S) as [Es Us].
+      split; auto. split. { rewrite Es. apply Codec_strip_ok; auto. }
+      unfold Codec_str_dec. rewrite Es, Codec_strip_idem, <- Es, Us. reflexivity.
+    - destruct M as (L & NE & Od). destruct (Codec_lookup_int acc tag) as [t|]; try discriminate.
+      destruct (existsb (Z.eqb t) vals && Codec_starts src h) eqn:C; inversion D; subst.
+      + apply andb_true_iff in C as [Cv Cs]. unfold Codec_starts in Cs. apply Codec_list_eqb_eq in Cs.
+        assert (Ls : (length src <= length h)%nat).
+        { rewrite <- Cs at 1. rewrite firstn_length. lia. }
+        split. { rewrite app_length, skipn_length. lia. }
+        split. { rewrite Codec_bytes_ok_app, Od, Codec_bytes_ok_skipn; auto. }
+        replace (Codec_starts src (dst ++ skipn (length src) h)) with false; [rewrite andb_false_r; reflexivity|].
+        unfold Codec_starts. rewrite L, firstn_app, Nat.sub_diag, firstn_O, app_nil_r, firstn_all.
+        destruct (Codec_list_eqb dst src) eqn:X; auto. apply Codec_list_eqb_eq in X. subst. rewrite Codec_list_eqb_refl in NE. discriminate.
+      + split; auto. split; auto. rewrite C. reflexivity.
+  Qed.
+
+  Lemma Codec_bdec_len : forall acc l m h v, Codec_bdec true acc m h = Some v -> Codec_mode_ok l m -> length v = length h.
+  Proof.
+    intros acc l m h v D M. destruct m as [| | tag vals src dst]; cbn [Codec_bdec] in *.
+    - inversion D; subst. auto.
+    - destruct (Codec_str_dec h) as [sv|] eqn:S; try discriminate.
+      destruct (Nat.eqb (length sv) (length h)) eqn:E; cbn in D; try discriminate. inversion D; subst. apply Nat.eqb_eq in E. auto.
+    - destruct M as (L & NE & Od). destruct (Codec_lookup_int acc tag) as [t|]; try discriminate.
+      destruct (existsb (Z.eqb t) vals && Codec_starts src h) eqn:C; inversion D; subst; auto.
+      apply andb_true_iff in C as [Cv Cs]. unfold Codec_starts in Cs. apply Codec_list_eqb_eq in Cs.
+      assert (Ls : (length src <= length h)%nat). { rewrite <- Cs at 1. rewrite firstn_length. lia. }
+      rewrite app_length, skipn_length. lia.
+  Qed.
+
+  (* ---- tagged sub-payloads ---- *)
+  Lemma Codec_skip_flag_ext : forall s acc full sk, Codec_skip_flag s acc = Some sk ->
+    (forall x c, Codec_lookup_int acc x = Some c -> Codec_lookup_int full x = Some c) -> Codec_skip_flag s full = Some sk.
+  Proof.
+    unfold Codec_skip_flag. intros s acc full sk H E. destruct (tg_skip s) as [[fid m]|]; auto.
+    destruct (Codec_lookup_int acc fid) as [f|] eqn:F; try discriminate. rewrite (E _ _ F). exact H.
+  Qed.
+
+  Lemma Codec_tag_size : forall s acc R v, Codec_tag_dec AD true s acc R = Some v -> exists rh ro, v = VTag rh ro (length R).
+  Proof.
+    intros s acc R v H. unfold Codec_tag_dec in H.
+    destruct (Codec_lookup_int acc (tg_tag s)) as [t|]; try discriminate.
+    destruct (Codec_skip_flag s acc) as [skip|]; try discriminate.
+    match type of H with match ?X with _ => _ end = _ => destruct X as [[[[hitems rh] R1] sel]|] eqn:SEL end; try discriminate.
+    assert (LR : length R = (Codec_items_size hitems + length R1)%nat).
+    { destruct (tg_sub s) as [[[[tv hit] sid] subcases]|].
+      - destruct (t =? tv).
+        + destruct (Codec_dec_items AD hit R) as [[rh0 R10]|] eqn:DH; try discriminate.
+          destruct (Codec_rec_int rh0 sid); try discriminate. inversion SEL; subst. eapply Codec_dec_items_len; eauto.
+        + inversion SEL; subst. reflexivity.
+      - inversion SEL; subst. reflexivity. }
+    destruct sel as [oitems|].
+    - destruct skip.
+      + destruct (Nat.eqb (length R1) 0) eqn:E; cbn in H; try discriminate. inversion H; subst. apply Nat.eqb_eq in E.
+        exists rh, []. f_equal. lia.
+      + destruct (tg_opaque s && (length R1 <? Codec_items_size oitems)%nat); try discriminate.
+        destruct (Codec_dec_items AD oitems R1) as [[ro lft]|] eqn:DO; try discriminate.
+        destruct (Nat.eqb (length lft) 0) eqn:E; cbn in H; try discriminate. inversion H; subst. apply Nat.eqb_eq in E.
+        exists rh, ro. f_equal. pose proof (Codec_dec_items_len _ _ _ _ _ DO). lia.
+    - rewrite andb_false_r in H. discriminate.
+  Qed.
+
+  Lemma Codec_tag_rt : forall s acc full R v,
+    Codec_tag_dec AD true s acc R = Some v -> Codec_bytes_ok R = true -> Codec_spec_ok s ->
+    (forall x c, Codec_lookup_int acc x = Some c -> Codec_lookup_int full x = Some c) ->
+    exists bs, Codec_tag_enc s full v = Some bs /\ length bs = length R /\ Codec_bytes_ok bs = true /\
+               Codec_tag_dec Codec_adec false s acc bs = Some v.
+  Proof.
+    intros s acc full R v H B [Kc Ks] Ext. pose proof H as H0. unfold Codec_tag_dec in H.
+    destruct (Codec_lookup_int acc (tg_tag s)) as [t|] eqn:LT; try discriminate.
+    destruct (Codec_skip_flag s acc) as [skip|] eqn:SK; try discriminate.
+    match type of H with match ?X with _ => _ end = _ => destruct X as [[[[hitems rh] R1] sel]|] eqn:SEL end; try discriminate.
+    (* the header part *)
+    assert (HD : exists bh, Codec_enc_items hitems rh = Some bh /\ length R = (length bh + length R1)%nat /\ Codec_bytes_ok bh = true /\
+                  Codec_bytes_ok R1 = true /\ length bh = Codec_items_size hitems /\
+                  (forall tail, Codec_dec_items Codec_adec hitems (bh ++ tail) = Some (rh, tail)) /\
+                  (match tg_sub s with
+                   | Some (tv, hit, sid, subcases) => if t =? tv then hitems = hit /\ (exists sv, Codec_rec_int rh sid = Some sv /\ sel = Codec_assoc sv subcases)
+                                                        else hitems = [] /\ rh = [] /\ sel = Codec_assoc t (tg_cases s)
+                   | None => hitems = [] /\ rh = [] /\ sel = Codec_assoc t (tg_cases s) end)).
+    { destruct (tg_sub s) as [[[[tv hit] sid] subcases]|].
+      - destruct (t =? tv).
+        + destruct (Codec_dec_items AD hit R) as [[rh0 R10]|] eqn:DH; try discriminate.
+          destruct (Codec_rec_int rh0 sid) as [sv|] eqn:RI; try discriminate. inversion SEL; subst.
+          destruct Ks as [Kh Ksub].
+          destruct (Codec_items_rt AD AD_ok _ _ _ _ Kh B DH) as (bh & E & L & O & O1 & Sz & Rd).
+          exists bh. repeat split; auto. exists sv. auto.
+        + inversion SEL; subst. exists []. cbn. repeat split; auto.
+      - inversion SEL; subst. exists []. cbn. repeat split; auto. }
+    destruct HD as (bh & Eh & Lh & Oh & O1 & Szh & Rdh & Shape).
+    assert (OK : forall oitems, sel = Some oitems -> Codec_items_ok oitems).
+    { intros oitems ->. destruct (tg_sub s) as [[[[tv hit] sid] subcases]|].
+      - destruct (t =? tv).
+        + destruct Shape as [_ (sv & _ & A)]. destruct Ks as [_ Ksub]. eapply Ksub; eauto.
+        + destruct Shape as (_ & _ & A). eapply Kc; eauto.
+      - destruct Shape as (_ & _ & A). eapply Kc; eauto. }
+    assert (ENC_SEL : match tg_sub s with
+                       | Some (tv, hit, sid, subcases) =>
+                           if t =? tv then (hit, match Codec_rec_int rh sid with Some sv => Codec_assoc sv subcases | None => None end)
+                           else ([], Codec_assoc t (tg_cases s))
+                       | None => ([], Codec_assoc t (tg_cases s)) end = (hitems, sel)).
+    { destruct (tg_sub s) as [[[[tv hit] sid] subcases]|].
+      - destruct (t =? tv).
+        + destruct Shape as [-> (sv & RI & A)]. rewrite RI, A. reflexivity.
+        + destruct Shape as (-> & _ & ->). reflexivity.
+      - destruct Shape as (-> & _ & ->). reflexivity. }
+    assert (DEC_SEL : forall bo, (match tg_sub s with
+               | Some (tv, hit, sid, subcases) =>
+                   if t =? tv then
+                     match Codec_dec_items Codec_adec hit (bh ++ bo) with
+                     | None => None
+                     | Some (rh', R1') => match Codec_rec_int rh' sid with None => None | Some sv => Some (hit, rh', R1', Codec_assoc sv subcases) end
+                     end
+                   else Some ([], [], bh ++ bo, Codec_assoc t (tg_cases s))
+               | None => Some ([], [], bh ++ bo, Codec_assoc t (tg_cases s))
+               end) = Some (hitems, rh, bo, sel)).
+    { intros bo. destruct (tg_sub s) as [[[[tv hit] sid] subcases]|].
+      - destruct (t =? tv).
+        + destruct Shape as [-> (sv & RI & A)]. rewrite Rdh, RI, A. reflexivity.
+        + destruct Shape as (-> & -> & ->). cbn in Eh. inversion Eh; subst. reflexivity.
+      - destruct Shape as (-> & -> & ->). cbn in Eh. inversion Eh; subst. reflexivity. }
+    destruct sel as [oitems|]; [|rewrite andb_false_r in H; discriminate].
+    specialize (OK _ eq_refl).
+    destruct skip.
+    - (* object skipped *)
+      destruct (Nat.eqb (length R1) 0) eqn:E; cbn in H; try discriminate. inversion H; subst. apply Nat.eqb_eq in E.
+      exists bh. split; [|split; [lia|split; [exact Oh|]]].
+      + unfold Codec_tag_enc. rewrite (Ext _ _ LT), (Codec_skip_flag_ext _ _ _ _ SK Ext).
+        match goal with |- (let '(_, _) := ?X in _) = _ => replace X with (hitems, Some oitems) end.
+        rewrite Eh, app_nil_r, Szh, Nat.eqb_refl. reflexivity.
+      + unfold Codec_tag_dec. rewrite LT, SK. specialize (DEC_SEL []). rewrite app_nil_r in DEC_SEL. rewrite DEC_SEL. cbn. reflexivity.
+    - destruct (tg_opaque s && (length R1 <? Codec_items_size oitems)%nat) eqn:OP; try discriminate.
+      destruct (Codec_dec_items AD oitems R1) as [[ro lft]|] eqn:DO; try discriminate.
+      destruct (Nat.eqb (length lft) 0) eqn:E; cbn in H; try discriminate. inversion H; subst. apply Nat.eqb_eq in E.
+      destruct (Codec_items_rt AD AD_ok _ _ _ _ OK O1 DO) as (bo & Eo & Lo & Oo & Ol & Szo & Rdo).
+      exists (bh ++ bo). split; [|split; [rewrite app_length; lia|split; [rewrite Codec_bytes_ok_app, Oh, Oo; reflexivity|]]].
+      + unfold Codec_tag_enc. rewrite (Ext _ _ LT), (Codec_skip_flag_ext _ _ _ _ SK Ext).
+        match goal with |- (let '(_, _) := ?X in _) = _ => replace X with (hitems, Some oitems) end.
+        rewrite Eh, Eo, app_length, Szh, Szo, Nat.eqb_refl. reflexivity.
+      + unfold Codec_tag_dec. rewrite LT, SK, (DEC_SEL bo).
+        replace (tg_opaque s && (length bo <? Codec_items_size oitems)%nat) with false.
+        2:{ symmetry. apply andb_false_iff. right. apply Nat.ltb_ge. lia. }
+        specialize (Rdo []). rewrite app_nil_r in Rdo. rewrite Rdo. cbn. reflexivity.
+  Qed.
+
+  (* after a successful strict decode every counted part has exactly as many elements as its count field says *)
+  Lemma Codec_dec_counts : forall d done b e rest seen,
+    Codec_dec_wire AD true d done b = Some (e, rest) -> NoDup (map fst done ++ Codec_ids d) -> Codec_wf_from d seen = true ->
     forall cnt id, In (cnt, id) (Codec_uses_of d) ->
     exists c, Codec_lookup_int (done ++ e) cnt = Some c /\ Codec_len_of (done ++ e) id = Some c.
   Proof.
-    induction d as [|w d IH]; intros done b e rest D ND cnt id I.
+    induction d as [|w d IH]; intros done b e rest seen D ND W cnt id I.
     - cbn in I. tauto.
     - cbn [Codec_dec_wire] in D.
-      destruct (Codec_dec_one AD w done b) as [[ents b']|] eqn:O; try discriminate.
-      destruct (Codec_dec_wire AD d (done ++ ents) b') as [[e' rest']|] eqn:R; try discriminate.
-      inversion D; subst. pose proof (Codec_dec_one_keys _ _ _ _ _ O) as K.
+      destruct (Codec_dec_one AD true w done b) as [[ents b']|] eqn:O; try discriminate.
+      destruct (Codec_dec_wire AD true d (done ++ ents) b') as [[e' rest']|] eqn:R; try discriminate.
+      inversion D; subst. pose proof (Codec_dec_one_keys _ _ _ _ _ _ O) as K.
       assert (ND' : NoDup (map fst (done ++ ents) ++ Codec_ids d)).
       { rewrite map_app, K, <- app_assoc. exact ND. }
+      cbn [Codec_wf_from] in W. apply andb_true_iff in W as [Ww W'].
       change (Codec_uses_of (w :: d)) with
-        ((match w with WCounted id cnt _ => [(cnt, id)] | WBytes id (LCount cnt) => [(cnt, id)] | _ => [] end) ++ Codec_uses_of d) in I.
+        ((match w with WCounted id cnt _ => [(cnt, id)] | WBytes id (LCount cnt) _ => [(cnt, id)] | WTagged id s => [(tg_len s, id)] | _ => [] end) ++ Codec_uses_of d) in I.
       apply in_app_or in I as [I | I].
       + (* the part at the head *)
         assert (HN : forall V, Codec_wire_id w = [id] -> Codec_lookup (done ++ (id, V) :: e') id = Some V).
-        { intros V W. rewrite Codec_lookup_app, Codec_lookup_notin, Codec_lookup_head; auto.
-          rewrite Codec_ids_cons, W in ND. cbn in ND. eapply Codec_NoDup_app_notin; eauto. }
-        destruct w as [it | id0 cnt0 body | id0 l]; cbn in I; try tauto.
+        { intros V Wd. rewrite Codec_lookup_app, Codec_lookup_notin, Codec_lookup_head; auto.
+          rewrite Codec_ids_cons, Wd in ND. cbn in ND. eapply Codec_NoDup_app_notin; eauto. }
+        destruct w as [it | id0 cnt0 body | id0 l m | id0 tag0 cases | id0 s]; cbn in I; try tauto.
         * destruct I as [I|[]]. inversion I; subst. cbn in O.
           destruct (Codec_count done cnt b) eqn:C; try discriminate.
           destruct (Codec_dec_recs AD body n b) as [[rs t]|] eqn:RR; try discriminate. inversion O; subst.
@@ -395,12 +678,27 @@ Section Wire.
           apply Codec_dec_recs_length in RR. rewrite RR. f_equal. lia.
         * destruct l; cbn in I; try tauto. destruct I as [I|[]]. inversion I; subst. cbn in O.
           destruct (Codec_count done cnt b) eqn:C; try discriminate.
-          destruct (Codec_take n b) as [[h t]|] eqn:T; try discriminate. inversion O; subst.
+          destruct (Codec_take n b) as [[h t]|] eqn:T; try discriminate.
+          destruct (Codec_bdec true done m h) as [v|] eqn:BD; try discriminate. inversion O; subst.
           apply Codec_count_some in C as (c & L & Rg & ->).
           exists c. split. apply Codec_lookup_int_app_l; auto.
           unfold Codec_len_of. cbn [app]. rewrite HN by reflexivity.
+          apply Codec_take_some in T as [_ T].
+          assert (M : Codec_mode_ok (LCount cnt) m).
+          { apply andb_true_iff in Ww as [_ Wm]. destruct m; cbn; auto. eauto.
+            apply andb_true_iff in Wm as [Wm W3]. apply andb_true_iff in Wm as [W1 W2].
+            apply Nat.eqb_eq in W1. apply negb_true_iff in W2. auto. }
+          rewrite (Codec_bdec_len _ _ _ _ _ BD M), T. f_equal. lia.
+        * destruct I as [I|[]]. inversion I; subst. cbn in O.
+          destruct (Codec_count done (tg_len s) b) eqn:C; try discriminate.
+          destruct (Codec_take n b) as [[Rg t]|] eqn:T; try discriminate.
+          destruct (Codec_tag_dec AD true s done Rg) as [v|] eqn:TD; try discriminate. inversion O; subst.
+          apply Codec_count_some in C as (c & L & Rng & ->).
+          exists c. split. apply Codec_lookup_int_app_l; auto.
+          destruct (Codec_tag_size _ _ _ _ TD) as (rh & ro & ->).
+          unfold Codec_len_of. cbn [app]. rewrite HN by reflexivity.
           apply Codec_take_some in T as [_ T]. rewrite T. f_equal. lia.
-      + destruct (IH _ _ _ _ R ND' cnt id I) as (c & A & B).
+      + destruct (IH _ _ _ _ _ R ND' W' cnt id I) as (c & A & B).
         exists c. rewrite <- app_assoc in A, B. auto.
   Qed.
 
@@ -423,19 +721,40 @@ Section Wire.
         | intros G; discriminate G ]
     end.
 
+  Lemma Codec_split_rt : forall done l b h t v, Codec_split done l b = Some (h, t) -> length v = length h ->
+    length b = (length h + length t)%nat /\
+    (l <> LGreedy -> forall tail, Codec_split done l (v ++ tail) = Some (v, tail)) /\
+    (l = LGreedy -> t = [] /\ Codec_split done l v = Some (v, [])).
+  Proof.
+    intros done l b h t v S Lv. destruct l as [n | cnt |]; cbn [Codec_split] in *.
+    - apply Codec_take_some in S as [-> L]. split; [rewrite app_length; lia|]. split; [|discriminate].
+      intros _ tail. rewrite <- L, <- Lv. apply Codec_take_app.
+    - destruct (Codec_count done cnt b) eqn:C; try discriminate. apply Codec_take_some in S as [-> L].
+      apply Codec_count_some in C as (c & Lk & Rg & E).
+      split; [rewrite app_length; lia|]. split; [|discriminate].
+      intros _ tail. rewrite (Codec_count_intro _ _ _ c Lk).
+      + rewrite <- E, <- L, <- Lv. apply Codec_take_app.
+      + rewrite app_length. lia.
+    - inversion S; subst. split; [cbn; lia|]. split; [intros X; congruence|]. auto.
+  Qed.
+
   Lemma Codec_one_rt : forall w done full b ents b',
-    Codec_dec_one AD w done b = Some (ents, b') -> Codec_bytes_ok b = true ->
+    Codec_dec_one AD true w done b = Some (ents, b') -> Codec_bytes_ok b = true ->
+    (forall x c, Codec_lookup_int done x = Some c -> Codec_lookup_int full x = Some c) ->
     (forall i, w = WItem i -> Codec_wf_item true i = true) ->
     (forall id cnt body, w = WCounted id cnt body -> forallb (Codec_wf_item false) body = true /\ (1 <= Codec_items_size body)%nat) ->
+    (forall id l m, w = WBytes id l m -> Codec_mode_ok l m) ->
+    (forall id tag cases, w = WSwitch id tag cases -> Codec_cases_ok cases) ->
+    (forall id s, w = WTagged id s -> Codec_spec_ok s) ->
     (forall cid k t z, w = WItem (IField cid k (ACount t)) -> ents = [(cid, VF (FInt z))] -> Codec_len_of full t = Some z) ->
     exists bs, (forall e', Codec_enc_one w full (ents ++ e') = Some (bs, e')) /\
                length b = (length bs + length b')%nat /\ Codec_bytes_ok bs = true /\ Codec_bytes_ok b' = true /\
-               (Codec_is_greedy w = false -> forall tail, Codec_dec_one Codec_adec w done (bs ++ tail) = Some (ents, tail)) /\
-               (Codec_is_greedy w = true -> b' = [] /\ Codec_dec_one Codec_adec w done bs = Some (ents, [])).
+               (Codec_is_greedy w = false -> forall tail, Codec_dec_one Codec_adec false w done (bs ++ tail) = Some (ents, tail)) /\
+               (Codec_is_greedy w = true -> b' = [] /\ Codec_dec_one Codec_adec false w done bs = Some (ents, [])).
   Proof.
-    intros w done full b ents b' O B Wi Wc Hc.
-    destruct w as [it | id cnt body | id l].
-    - specialize (Wi it eq_refl). destruct it as [id k a | ps]; cbn in O, Wi.
+    intros w done full b ents b' O B Ext Wi Wc Wm Ws Wt Hc.
+    destruct w as [it | id cnt body | id l m | id tag cases | id s].
+    - specialize (Wi it eq_refl). destruct it as [id k a | ps | id n]; cbn in O, Wi.
       + destruct (Codec_take (Codec_ksize k) b) as [[h t]|] eqn:T; try discriminate.
         destruct (AD a (Codec_kdec k h)) as [v|] eqn:A; try discriminate. inversion O; subst. clear O.
         apply Codec_take_some in T as [-> L].
@@ -456,7 +775,23 @@ Section Wire.
         * rewrite !app_length. lia.
         * intros _ tail. cbn [Codec_dec_one Codec_dec_items]. rewrite Codec_take_app. reflexivity.
         * intros G; discriminate G.
-    - destruct (Wc _ _ _ eq_refl) as [Wb Ws]. cbn in O.
+      + (* a fixed-size string at top level: through the item lemma *)
+        destruct (Codec_dec_items AD [IStr id n] b) as [[r t]|] eqn:I.
+        2:{ cbn in I. destruct (Codec_take n b) as [[h t]|]; try discriminate. destruct (Codec_str_dec h); discriminate. }
+        assert (O2 : ents = map (fun p => (fst p, VF (snd p))) r /\ b' = t).
+        { cbn in I. destruct (Codec_take n b) as [[h t0]|]; try discriminate. destruct (Codec_str_dec h); try discriminate.
+          inversion I; subst. inversion O; subst. auto. }
+        destruct O2 as [-> ->].
+        destruct (Codec_items_rt AD AD_ok [IStr id n] b r t eq_refl B I) as (bs & E & L & Ob & Ot & Sz & Rd).
+        assert (Rf : exists sv, r = [(id, FBytes sv)]).
+        { cbn in I. destruct (Codec_take n b) as [[h t0]|]; try discriminate. destruct (Codec_str_dec h) as [sv|]; try discriminate.
+          inversion I; subst. eauto. }
+        destruct Rf as (sv & ->).
+        exists bs. Codec_split6; auto.
+        * intros e'. cbn [map app fst snd Codec_enc_one]. rewrite E. reflexivity.
+        * intros _ tail. cbn [Codec_dec_one]. rewrite Rd. reflexivity.
+        * intros G; discriminate G.
+    - destruct (Wc _ _ _ eq_refl) as [Wb Wsz]. cbn in O.
       destruct (Codec_count done cnt b) eqn:C; try discriminate.
       destruct (Codec_dec_recs AD body n b) as [[rs t]|] eqn:RR; try discriminate. inversion O; subst. clear O.
       destruct (Codec_recs_rt AD AD_ok _ _ _ _ _ Wb B RR) as (bs & E & L & Ob & Ot & Ln & Sz & Rd).
@@ -466,64 +801,103 @@ Section Wire.
       * intros _ tail. cbn [Codec_dec_one]. rewrite (Codec_count_intro _ _ _ c Lk), Rd; auto.
         rewrite app_length. split; [lia|]. nia.
       * intros G; discriminate G.
-    - destruct l as [n | cnt | ]; cbn in O.
-      + destruct (Codec_take n b) as [[h t]|] eqn:T; try discriminate. inversion O; subst. clear O.
-        apply Codec_take_some in T as [-> L].
-        rewrite Codec_bytes_ok_app in B. apply andb_true_iff in B as [Bh Bt].
-        exists h. Codec_split6; auto.
-        * intros e'. cbn [app Codec_enc_one Codec_len_okb]. rewrite N.eqb_refl, Bh, L, Nat.eqb_refl. reflexivity.
-        * rewrite app_length. lia.
-        * intros _ tail. cbn [Codec_dec_one]. rewrite <- L. rewrite Codec_take_app. reflexivity.
+    - specialize (Wm _ _ _ eq_refl). cbn [Codec_dec_one] in O. fold (Codec_split done l b) in O.
+      destruct (Codec_split done l b) as [[h t]|] eqn:S; try discriminate.
+      destruct (Codec_bdec true done m h) as [v|] eqn:BD; try discriminate. inversion O; subst. clear O.
+      assert (Bh : Codec_bytes_ok h = true /\ Codec_bytes_ok b' = true).
+      { destruct l as [n | cnt |]; cbn [Codec_split] in S.
+        - apply Codec_take_some in S as [-> _]. rewrite Codec_bytes_ok_app in B. apply andb_true_iff in B. exact B.
+        - destruct (Codec_count done cnt b); try discriminate. apply Codec_take_some in S as [-> _].
+          rewrite Codec_bytes_ok_app in B. apply andb_true_iff in B. exact B.
+        - inversion S; subst. auto. }
+      destruct Bh as [Bh Bt].
+      destruct (Codec_bdec_rt _ _ _ _ _ BD Wm Bh) as (Lv & Ov & Rv).
+      destruct (Codec_split_rt _ _ _ _ _ _ S Lv) as (Lb & Rng & Rg).
+      exists v. Codec_split6; auto.
+      * intros e'. cbn [app Codec_enc_one]. rewrite N.eqb_refl, Ov. cbn [andb].
+        replace (Codec_len_okb l v) with true; [reflexivity|].
+        destruct l as [n | cnt |]; cbn; auto. cbn [Codec_split] in S. apply Codec_take_some in S as [_ L]. symmetry. apply Nat.eqb_eq. lia.
+      * lia.
+      * intros G tail. cbn [Codec_dec_one]. fold (Codec_split done l (v ++ tail)). rewrite Rng, Rv. reflexivity.
+        intros ->. discriminate G.
+      * intros G. destruct l; try discriminate G. destruct (Rg eq_refl) as [-> Rg'].
+        split; auto. cbn [Codec_dec_one]. rewrite Rv. reflexivity.
+    - specialize (Ws _ _ _ eq_refl). cbn [Codec_dec_one] in O.
+      destruct (Codec_lookup_int done tag) as [t|] eqn:LT; try discriminate.
+      destruct (Codec_assoc t cases) as [its|] eqn:A.
+      + destruct (Codec_dec_items AD its b) as [[r rest]|] eqn:I; try discriminate. inversion O; subst. clear O.
+        destruct (Codec_items_rt AD AD_ok its b r b' (Ws _ _ A) B I) as (bs & E & L & Ob & Ot & Sz & Rd).
+        exists bs. Codec_split6; auto.
+        * intros e'. cbn [app Codec_enc_one]. rewrite N.eqb_refl, (Ext _ _ LT), A, E. reflexivity.
+        * intros _ tail. cbn [Codec_dec_one]. rewrite LT, A, Rd. reflexivity.
         * intros G; discriminate G.
-      + destruct (Codec_count done cnt b) eqn:C; try discriminate.
-        destruct (Codec_take n b) as [[h t]|] eqn:T; try discriminate. inversion O; subst. clear O.
-        apply Codec_take_some in T as [-> L].
-        rewrite Codec_bytes_ok_app in B. apply andb_true_iff in B as [Bh Bt].
-        apply Codec_count_some in C as (c & Lk & Rg & E).
-        exists h. Codec_split6; auto.
-        * intros e'. cbn [app Codec_enc_one Codec_len_okb]. rewrite N.eqb_refl, Bh. reflexivity.
-        * rewrite app_length. lia.
-        * intros _ tail. cbn [Codec_dec_one]. rewrite (Codec_count_intro _ _ _ c Lk).
-          -- rewrite <- E, <- L. rewrite Codec_take_app. reflexivity.
-          -- rewrite app_length. lia.
+      + inversion O; subst. clear O. exists []. Codec_split6; auto.
+        * intros e'. cbn [app Codec_enc_one]. rewrite N.eqb_refl, (Ext _ _ LT), A. reflexivity.
+        * intros _ tail. cbn [Codec_dec_one app]. rewrite LT, A. reflexivity.
         * intros G; discriminate G.
-      + inversion O; subst. clear O. exists b. Codec_split6; auto.
-        * intros e'. cbn [app Codec_enc_one Codec_len_okb]. rewrite N.eqb_refl, B. reflexivity.
-        * intros G; discriminate G.
+    - specialize (Wt _ _ eq_refl). cbn [Codec_dec_one] in O.
+      destruct (Codec_count done (tg_len s) b) eqn:C; try discriminate.
+      destruct (Codec_take n b) as [[R t]|] eqn:T; try discriminate.
+      destruct (Codec_tag_dec AD true s done R) as [v|] eqn:TD; try discriminate. inversion O; subst. clear O.
+      apply Codec_take_some in T as [-> L].
+      rewrite Codec_bytes_ok_app in B. apply andb_true_iff in B as [Br Bt].
+      destruct (Codec_tag_rt s done full R v TD Br Wt Ext) as (bs & E & Lb & Ob & Rd).
+      apply Codec_count_some in C as (c & Lk & Rg & En).
+      exists bs. Codec_split6; auto.
+      * intros e'. cbn [app Codec_enc_one]. rewrite N.eqb_refl, E. reflexivity.
+      * rewrite app_length. lia.
+      * intros _ tail. cbn [Codec_dec_one]. rewrite (Codec_count_intro _ _ _ c Lk).
+        -- rewrite <- En, <- L, <- Lb. rewrite Codec_take_app, Rd. reflexivity.
+        -- rewrite app_length in *. lia.
+      * intros G; discriminate G.
   Qed.
 
   Lemma Codec_wf_from_cons : forall w d seen, Codec_wf_from (w :: d) seen = true ->
     (forall i, w = WItem i -> Codec_wf_item true i = true) /\
     (forall id cnt body, w = WCounted id cnt body -> forallb (Codec_wf_item false) body = true /\ (1 <= Codec_items_size body)%nat) /\
+    (forall id l m, w = WBytes id l m -> Codec_mode_ok l m) /\
+    (forall id tag cases, w = WSwitch id tag cases -> Codec_cases_ok cases) /\
+    (forall id s, w = WTagged id s -> Codec_spec_ok s) /\
     (Codec_is_greedy w = true -> d = []) /\
     Codec_wf_from d (match w with WItem (IField id _ (ACount t)) => (id, t) :: seen | _ => seen end) = true.
   Proof.
     intros w d seen H. cbn [Codec_wf_from] in H. apply andb_true_iff in H as [H1 H2].
-    split; [|split; [|split]]; auto.
+    split; [|split; [|split; [|split; [|split; [|split]]]]]; auto.
     - intros i ->. exact H1.
     - intros id cnt body ->. apply andb_true_iff in H1 as [H1 _]. apply andb_true_iff in H1 as [H1 H3].
       split; auto. apply Nat.leb_le. exact H3.
-    - intros G. destruct w as [|? ? ?|? []]; try discriminate G. destruct d; auto. discriminate H1.
+    - intros id l m ->. apply andb_true_iff in H1 as [_ Wm]. destruct m; cbn; auto.
+      + destruct l; try discriminate Wm. eauto.
+      + apply andb_true_iff in Wm as [Wm W3]. apply andb_true_iff in Wm as [W1 W2].
+        apply Nat.eqb_eq in W1. apply negb_true_iff in W2. auto.
+    - intros id tag cases -> t its A. unfold Codec_items_ok.
+      exact (Codec_assoc_forall (forallb (Codec_wf_item false)) cases t its H1 A).
+    - intros id s ->. apply andb_true_iff in H1 as [H1 Wsub]. apply andb_true_iff in H1 as [_ Wc]. split.
+      + intros t its A. exact (Codec_assoc_forall (forallb (Codec_wf_item false)) _ t its Wc A).
+      + destruct (tg_sub s) as [[[[tv hit] sid] subcases]|]; auto. apply andb_true_iff in Wsub as [Wh Wsc]. split; auto.
+        intros t its A. exact (Codec_assoc_forall (forallb (Codec_wf_item false)) _ t its Wsc A).
+    - intros G. destruct w as [| | ? [] ? | |]; try discriminate G. destruct d; auto.
+      apply andb_true_iff in H1 as [H1 _]. discriminate H1.
   Qed.
 
   Lemma Codec_nogreedy_cons : forall w d, Codec_nogreedy (w :: d) = negb (Codec_is_greedy w) && Codec_nogreedy d.
   Proof. reflexivity. Qed.
 
   Lemma Codec_wire_rt : forall d done b e rest seen full,
-    Codec_dec_wire AD d done b = Some (e, rest) -> Codec_bytes_ok b = true -> Codec_wf_from d seen = true ->
+    Codec_dec_wire AD true d done b = Some (e, rest) -> Codec_bytes_ok b = true -> Codec_wf_from d seen = true ->
     NoDup (map fst done ++ Codec_ids d) -> full = done ++ e ->
     (forall cid t, In (cid, t) (Codec_counts_of d) -> exists c, Codec_lookup_int full cid = Some c /\ Codec_len_of full t = Some c) ->
     exists bs, Codec_enc_wire d full e = Some bs /\ length b = (length bs + length rest)%nat /\ Codec_bytes_ok bs = true /\
-      forall tail, (Codec_nogreedy d = true \/ tail = []) -> Codec_dec_wire Codec_adec d done (bs ++ tail) = Some (e, tail).
+      forall tail, (Codec_nogreedy d = true \/ tail = []) -> Codec_dec_wire Codec_adec false d done (bs ++ tail) = Some (e, tail).
   Proof.
     induction d as [|w d IH]; intros done b e rest seen full D B W ND F Hcc.
     - cbn in D. inversion D; subst. exists []. cbn. repeat split; auto.
     - cbn [Codec_dec_wire] in D.
-      destruct (Codec_dec_one AD w done b) as [[ents b']|] eqn:O; try discriminate.
-      destruct (Codec_dec_wire AD d (done ++ ents) b') as [[e' rest']|] eqn:R; try discriminate.
+      destruct (Codec_dec_one AD true w done b) as [[ents b']|] eqn:O; try discriminate.
+      destruct (Codec_dec_wire AD true d (done ++ ents) b') as [[e' rest']|] eqn:R; try discriminate.
       injection D as De Dr. subst e rest full.
-      destruct (Codec_wf_from_cons _ _ _ W) as (Wi & Wc & Wg & W').
-      pose proof (Codec_dec_one_keys _ _ _ _ _ O) as K.
+      destruct (Codec_wf_from_cons _ _ _ W) as (Wi & Wc & Wm & Ws & Wt & Wg & W').
+      pose proof (Codec_dec_one_keys _ _ _ _ _ _ O) as K.
       assert (ND' : NoDup (map fst (done ++ ents) ++ Codec_ids d)).
       { rewrite map_app, K, <- app_assoc. exact ND. }
       assert (Hc : forall cid k t z, w = WItem (IField cid k (ACount t)) -> ents = [(cid, VF (FInt z))] ->
@@ -532,7 +906,9 @@ Section Wire.
         unfold Codec_lookup_int in A. cbn [app] in A. rewrite Codec_lookup_app, Codec_lookup_notin, Codec_lookup_head in A.
         - inversion A; subst. exact Bc.
         - rewrite Codec_ids_cons in ND. cbn in ND. eapply Codec_NoDup_app_notin; eauto. }
-      destruct (Codec_one_rt w done (done ++ ents ++ e') b ents b' O B Wi Wc Hc) as (bsw & Ew & Lw & Ow & Ob' & Rng & Rg).
+      assert (Ext : forall x c, Codec_lookup_int done x = Some c -> Codec_lookup_int (done ++ ents ++ e') x = Some c).
+      { intros x c Hx. apply Codec_lookup_int_app_l. exact Hx. }
+      destruct (Codec_one_rt w done (done ++ ents ++ e') b ents b' O B Ext Wi Wc Wm Ws Wt Hc) as (bsw & Ew & Lw & Ow & Ob' & Rng & Rg).
       destruct (IH (done ++ ents) b' e' rest' _ (done ++ ents ++ e') R Ob' W' ND') as (bs' & E' & L' & O' & R').
       { rewrite app_assoc. reflexivity. }
       { intros cid t I. apply Hcc. change (Codec_counts_of (w :: d)) with
@@ -566,17 +942,17 @@ Section Wire.
     destruct p, q; cbn in *; subst; auto.
   Qed.
 
-  (* parse b = Some (v, n)  =>  pack v = Some b1, len b1 = n = size v, parse b1 = Some (v, n) (hence pack again = b1) *)
+  (* strict parse b = Some (v, n)  =>  pack v = Some b1, len b1 = n, parse b1 = Some (v, n) (hence pack again = b1) *)
   Theorem Codec_roundtrip_AD : forall d b e n,
-    Codec_wf d = true -> Codec_bytes_ok b = true -> Codec_parse_with AD d b = Some (e, n) ->
+    Codec_wf d = true -> Codec_bytes_ok b = true -> Codec_parse_with AD true d b = Some (e, n) ->
     exists b1, Codec_pack d e = Some b1 /\ length b1 = n /\ Codec_parse d b1 = Some (e, n) /\ Codec_bytes_ok b1 = true.
   Proof.
     intros d b e n W B P. unfold Codec_parse_with in P.
-    destruct (Codec_dec_wire AD d [] b) as [[e0 rest]|] eqn:D; try discriminate. inversion P; subst. clear P.
+    destruct (Codec_dec_wire AD true d [] b) as [[e0 rest]|] eqn:D; try discriminate. inversion P; subst. clear P.
     pose proof W as W0. unfold Codec_wf in W. apply andb_true_iff in W as [W _]. apply andb_true_iff in W as [Wn Wf].
     apply Codec_nodupb_NoDup in Wn.
     destruct (Codec_wire_rt d [] b e rest [] e D B Wf Wn eq_refl) as (bs & E & L & O & R).
-    { intros cid t I. apply (Codec_dec_counts d [] b e rest D Wn). apply Codec_counts_used; auto. }
+    { intros cid t I. apply (Codec_dec_counts d [] b e rest [] D Wn Wf). apply Codec_counts_used; auto. }
     exists bs. split; [exact E|]. split; [lia|]. split; auto.
     unfold Codec_parse, Codec_parse_with. specialize (R [] (or_intror eq_refl)). rewrite app_nil_r in R. rewrite R.
     cbn. f_equal. f_equal. lia.
@@ -591,13 +967,18 @@ Lemma Codec_enc_items_length : forall its r bs, Codec_enc_items its r = Some bs 
 Proof.
   induction its as [|it its IH]; intros r bs H.
   - cbn in H. destruct r; inversion H; reflexivity.
-  - destruct it as [id k a | ps]; cbn [Codec_enc_items] in H.
+  - destruct it as [id k a | ps | id n]; cbn [Codec_enc_items] in H.
     + destruct r as [|[id' v] r']; try discriminate. destruct (N.eqb id id'); try discriminate.
       destruct (Codec_aenc a v); try discriminate. destruct (Codec_krange k z); try discriminate.
       destruct (Codec_enc_items its r') eqn:E; try discriminate. inversion H; subst.
       rewrite app_length, Codec_kenc_length, (IH _ _ E). reflexivity.
     + destruct (Codec_enc_items its r) eqn:E; try discriminate. inversion H; subst.
       rewrite app_length, (IH _ _ E). reflexivity.
+    + destruct r as [|[id' [| |sv]] r']; try discriminate.
+      destruct (N.eqb id id' && Codec_bytes_ok sv && (length sv <=? n)%nat) eqn:C; try discriminate.
+      destruct (Codec_enc_items its r') eqn:E; try discriminate. inversion H; subst.
+      apply andb_true_iff in C as [_ C]. apply Nat.leb_le in C.
+      rewrite !app_length, repeat_length, (IH _ _ E). unfold Codec_items_size. cbn [fold_right Codec_item_size]. lia.
 Qed.
 
 Lemma Codec_enc_recs_length : forall its rs bs, Codec_enc_recs its rs = Some bs -> length bs = (length rs * Codec_items_size its)%nat.
@@ -609,42 +990,69 @@ Proof.
     rewrite app_length, (Codec_enc_items_length _ _ _ E), (IH _ eq_refl). cbn. lia.
 Qed.
 
-Lemma Codec_sizeof_enc : forall d full e bs, Codec_enc_wire d full e = Some bs -> Codec_sizeof d e = Some (length bs).
+Lemma Codec_size_one_enc : forall w full e bw e', Codec_enc_one w full e = Some (bw, e') -> Codec_size_one w full e = Some (length bw, e').
+Proof.
+  intros w full e bw e' O.
+  destruct w as [[id k a | ps | id n] | id cnt body | id bl m | id tag cases | id s]; cbn [Codec_enc_one] in O; cbn [Codec_size_one].
+  - destruct e as [|[id' [v| | | |]] e0]; try discriminate. destruct (N.eqb id id'); try discriminate.
+    destruct (match a with ACount t => Codec_len_of full t | _ => Codec_aenc a v end); try discriminate.
+    destruct (Codec_krange k z); try discriminate. inversion O; subst. rewrite Codec_kenc_length. reflexivity.
+  - inversion O; subst. reflexivity.
+  - destruct e as [|[id' [v| | | |]] e0]; try discriminate.
+    destruct (Codec_enc_items [IStr id n] [(id', v)]) eqn:E; try discriminate. inversion O; subst.
+    rewrite (Codec_enc_items_length _ _ _ E). unfold Codec_items_size. cbn. rewrite Nat.add_0_r. reflexivity.
+  - destruct e as [|[id' [| |rs| |]] e0]; try discriminate. destruct (N.eqb id id'); try discriminate.
+    destruct (Codec_enc_recs body rs) eqn:R; try discriminate. inversion O; subst.
+    rewrite (Codec_enc_recs_length _ _ _ R). reflexivity.
+  - destruct e as [|[id' [| bs0 | | |]] e0]; try discriminate.
+    destruct (N.eqb id id' && Codec_bytes_ok bs0 && Codec_len_okb bl bs0); try discriminate. inversion O; subst. reflexivity.
+  - destruct e as [|[id' [| |rs| |]] e0]; try discriminate. destruct (N.eqb id id'); try discriminate.
+    destruct (Codec_lookup_int full tag) as [t|]; try discriminate.
+    destruct (Codec_assoc t cases) as [its|].
+    + destruct rs as [|r [|]]; try discriminate. destruct (Codec_enc_items its r) eqn:E; try discriminate. inversion O; subst.
+      rewrite (Codec_enc_items_length _ _ _ E). reflexivity.
+    + destruct rs; try discriminate. inversion O; subst. reflexivity.
+  - destruct e as [|[id' v] e0]; try discriminate. destruct (N.eqb id id'); try discriminate.
+    destruct (Codec_tag_enc s full v) eqn:T; try discriminate. inversion O; subst.
+    unfold Codec_tag_enc in T. destruct v as [| | |rh ro sz|]; try discriminate.
+    destruct (Codec_lookup_int full (tg_tag s)); try discriminate. destruct (Codec_skip_flag s full); try discriminate.
+    match type of T with (let '(_, _) := ?X in _) = _ => destruct X as [hitems sel] end.
+    destruct sel; try discriminate. destruct (Codec_enc_items hitems rh); try discriminate.
+    match type of T with match ?X with _ => _ end = _ => destruct X end; try discriminate.
+    destruct (Nat.eqb (length (l0 ++ l1)) sz) eqn:E; try discriminate. inversion T; subst. apply Nat.eqb_eq in E. rewrite E. reflexivity.
+Qed.
+
+Lemma Codec_sizeof_from_enc : forall d full e bs, Codec_enc_wire d full e = Some bs -> Codec_sizeof_from d full e = Some (length bs).
 Proof.
   induction d as [|w d IH]; intros full e bs H.
   - cbn in *. destruct e; inversion H; reflexivity.
   - cbn [Codec_enc_wire] in H.
     destruct (Codec_enc_one w full e) as [[bw e']|] eqn:O; try discriminate.
     destruct (Codec_enc_wire d full e') eqn:E; try discriminate. inversion H; subst. clear H.
-    specialize (IH _ _ _ E). rewrite app_length.
-    destruct w as [[id k a | ps] | id cnt body | id bl]; cbn [Codec_enc_one] in O; cbn [Codec_sizeof].
-    + destruct e as [|[id' [v| |]] e0]; try discriminate. destruct (N.eqb id id'); try discriminate.
-      destruct (match a with ACount t => Codec_len_of full t | _ => Codec_aenc a v end); try discriminate.
-      destruct (Codec_krange k z); try discriminate. inversion O; subst. rewrite IH, Codec_kenc_length. reflexivity.
-    + inversion O; subst. rewrite IH. reflexivity.
-    + destruct e as [|[id' [| |rs]] e0]; try discriminate. destruct (N.eqb id id'); try discriminate.
-      destruct (Codec_enc_recs body rs) eqn:R; try discriminate. inversion O; subst.
-      rewrite IH, (Codec_enc_recs_length _ _ _ R). reflexivity.
-    + destruct e as [|[id' [| bs0 |]] e0]; try discriminate.
-      destruct (N.eqb id id' && Codec_bytes_ok bs0 && Codec_len_okb bl bs0); try discriminate. inversion O; subst.
-      rewrite IH. reflexivity.
+    cbn [Codec_sizeof_from]. rewrite (Codec_size_one_enc _ _ _ _ _ O), (IH _ _ _ E), app_length. reflexivity.
 Qed.
+Lemma Codec_sizeof_enc : forall d e bs, Codec_pack d e = Some bs -> Codec_sizeof d e = Some (length bs).
+Proof. intros d e bs H. apply Codec_sizeof_from_enc. exact H. Qed.
 
 (* ------------------------------------------------------------------------------------------------ *)
-(* the decode function used to state a theorem refines the model's decode                           *)
+(* a more restrictive decoder refines a more permissive one                                         *)
 (* ------------------------------------------------------------------------------------------------ *)
 
 Section Refine.
   Variables AD1 AD2 : Codec_adapter -> Z -> option Codec_fval.
+  Variables ST1 ST2 : bool.
   Hypothesis Sub : forall a z v, AD1 a z = Some v -> AD2 a z = Some v.
+  Hypothesis Simp : ST2 = true -> ST1 = true.
 
   Lemma Codec_dec_items_sub : forall its b r, Codec_dec_items AD1 its b = Some r -> Codec_dec_items AD2 its b = Some r.
   Proof.
-    induction its as [|[id k a | ps] its IH]; intros b r H; cbn [Codec_dec_items] in *; auto.
+    induction its as [|[id k a | ps | id n] its IH]; intros b r H; cbn [Codec_dec_items] in *; auto.
     - destruct (Codec_take (Codec_ksize k) b) as [[h t]|]; try discriminate.
       destruct (AD1 a (Codec_kdec k h)) eqn:A; try discriminate. rewrite (Sub _ _ _ A).
       destruct (Codec_dec_items AD1 its t) as [[e rest]|] eqn:R; try discriminate. rewrite (IH _ _ R). exact H.
     - destruct (Codec_take (length ps) b) as [[h t]|]; try discriminate. auto.
+    - destruct (Codec_take n b) as [[h t]|]; try discriminate. destruct (Codec_str_dec h); try discriminate.
+      destruct (Codec_dec_items AD1 its t) as [[e rest]|] eqn:R; try discriminate. rewrite (IH _ _ R). exact H.
   Qed.
   Lemma Codec_dec_recs_sub : forall its n b r, Codec_dec_recs AD1 its n b = Some r -> Codec_dec_recs AD2 its n b = Some r.
   Proof.
@@ -652,23 +1060,79 @@ Section Refine.
     destruct (Codec_dec_items AD1 its b) as [[x t]|] eqn:I; try discriminate. rewrite (Codec_dec_items_sub _ _ _ I).
     destruct (Codec_dec_recs AD1 its n t) as [[rs rest]|] eqn:R; try discriminate. rewrite (IHn _ _ R). exact H.
   Qed.
-  Lemma Codec_dec_one_sub : forall w acc b r, Codec_dec_one AD1 w acc b = Some r -> Codec_dec_one AD2 w acc b = Some r.
+  Lemma Codec_strict_weaken : forall (c : bool) (A : Type) (x : A) r, (if ST1 && c then None else Some x) = Some r -> (if ST2 && c then None else Some x) = Some r.
   Proof.
-    intros [it | id cnt body | id l] acc b r H; cbn [Codec_dec_one] in *; auto.
+    intros c A x r H. destruct ST2; cbn.
+    - rewrite (Simp eq_refl) in H. exact H.
+    - destruct (ST1 && c); try discriminate. exact H.
+  Qed.
+  Lemma Codec_bdec_sub : forall acc m h v, Codec_bdec ST1 acc m h = Some v -> Codec_bdec ST2 acc m h = Some v.
+  Proof.
+    intros acc m h v H. destruct m; cbn [Codec_bdec] in *; auto.
+    destruct (Codec_str_dec h); try discriminate. apply Codec_strict_weaken. exact H.
+  Qed.
+  Lemma Codec_tag_dec_sub : forall s acc R v, Codec_tag_dec AD1 ST1 s acc R = Some v -> Codec_tag_dec AD2 ST2 s acc R = Some v.
+  Proof.
+    intros s acc R v H. unfold Codec_tag_dec in *.
+    destruct (Codec_lookup_int acc (tg_tag s)) as [t|]; try discriminate.
+    destruct (Codec_skip_flag s acc) as [skip|]; try discriminate.
+    assert (SEL : forall X, (match tg_sub s with
+               | Some (tv, hitems, sid, subcases) =>
+                   if t =? tv then
+                     match Codec_dec_items AD1 hitems R with
+                     | None => None
+                     | Some (rh, R1) => match Codec_rec_int rh sid with None => None | Some sv => Some (hitems, rh, R1, Codec_assoc sv subcases) end
+                     end
+                   else Some ([], [], R, Codec_assoc t (tg_cases s))
+               | None => Some ([], [], R, Codec_assoc t (tg_cases s))
+               end) = Some X ->
+               (match tg_sub s with
+               | Some (tv, hitems, sid, subcases) =>
+                   if t =? tv then
+                     match Codec_dec_items AD2 hitems R with
+                     | None => None
+                     | Some (rh, R1) => match Codec_rec_int rh sid with None => None | Some sv => Some (hitems, rh, R1, Codec_assoc sv subcases) end
+                     end
+                   else Some ([], [], R, Codec_assoc t (tg_cases s))
+               | None => Some ([], [], R, Codec_assoc t (tg_cases s))
+               end) = Some X).
+    { intros X HX. destruct (tg_sub s) as [[[[tv hit] sid] subcases]|]; auto. destruct (t =? tv); auto.
+      destruct (Codec_dec_items AD1 hit R) as [[rh R1]|] eqn:DH; try discriminate. rewrite (Codec_dec_items_sub _ _ _ DH). exact HX. }
+    match type of H with match ?X with _ => _ end = _ => destruct X as [[[[hitems rh] R1] sel]|] eqn:E end; try discriminate.
+    rewrite (SEL _ eq_refl).
+    destruct sel as [oitems|].
+    - destruct skip.
+      + apply Codec_strict_weaken. exact H.
+      + destruct (tg_opaque s && (length R1 <? Codec_items_size oitems)%nat).
+        * destruct ST2. { rewrite (Simp eq_refl) in H. exact H. } destruct ST1; try discriminate. exact H.
+        * destruct (Codec_dec_items AD1 oitems R1) as [[ro lft]|] eqn:DO; try discriminate. rewrite (Codec_dec_items_sub _ _ _ DO).
+          apply Codec_strict_weaken. exact H.
+    - destruct (tg_opaque s); cbn in *; try discriminate. destruct ST1; cbn in H; try discriminate.
+      destruct ST2; auto. discriminate (Simp eq_refl).
+  Qed.
+  Lemma Codec_dec_one_sub : forall w acc b r, Codec_dec_one AD1 ST1 w acc b = Some r -> Codec_dec_one AD2 ST2 w acc b = Some r.
+  Proof.
+    intros [it | id cnt body | id l m | id tag cases | id s] acc b r H; cbn [Codec_dec_one] in *; auto.
     - destruct (Codec_dec_items AD1 [it] b) as [[x t]|] eqn:I; try discriminate. rewrite (Codec_dec_items_sub _ _ _ I). exact H.
     - destruct (Codec_count acc cnt b); try discriminate.
       destruct (Codec_dec_recs AD1 body n b) as [[rs t]|] eqn:R; try discriminate. rewrite (Codec_dec_recs_sub _ _ _ _ R). exact H.
+    - match type of H with match ?X with _ => _ end = _ => destruct X as [[h t]|] end; try discriminate.
+      destruct (Codec_bdec ST1 acc m h) eqn:BD; try discriminate. rewrite (Codec_bdec_sub _ _ _ _ BD). exact H.
+    - destruct (Codec_lookup_int acc tag); try discriminate. destruct (Codec_assoc z cases); auto.
+      destruct (Codec_dec_items AD1 l b) as [[x rest]|] eqn:I; try discriminate. rewrite (Codec_dec_items_sub _ _ _ I). exact H.
+    - destruct (Codec_count acc (tg_len s) b); try discriminate. destruct (Codec_take n b) as [[R t]|]; try discriminate.
+      destruct (Codec_tag_dec AD1 ST1 s acc R) eqn:TD; try discriminate. rewrite (Codec_tag_dec_sub _ _ _ _ TD). exact H.
   Qed.
-  Lemma Codec_dec_wire_sub : forall d acc b r, Codec_dec_wire AD1 d acc b = Some r -> Codec_dec_wire AD2 d acc b = Some r.
+  Lemma Codec_dec_wire_sub : forall d acc b r, Codec_dec_wire AD1 ST1 d acc b = Some r -> Codec_dec_wire AD2 ST2 d acc b = Some r.
   Proof.
     induction d as [|w d IH]; intros acc b r H; cbn [Codec_dec_wire] in *; auto.
-    destruct (Codec_dec_one AD1 w acc b) as [[ents b']|] eqn:O; try discriminate. rewrite (Codec_dec_one_sub _ _ _ _ O).
-    destruct (Codec_dec_wire AD1 d (acc ++ ents) b') as [[e rest]|] eqn:R; try discriminate. rewrite (IH _ _ _ R). exact H.
+    destruct (Codec_dec_one AD1 ST1 w acc b) as [[ents b']|] eqn:O; try discriminate. rewrite (Codec_dec_one_sub _ _ _ _ O).
+    destruct (Codec_dec_wire AD1 ST1 d (acc ++ ents) b') as [[e rest]|] eqn:R; try discriminate. rewrite (IH _ _ _ R). exact H.
   Qed.
-  Lemma Codec_parse_sub : forall d b r, Codec_parse_with AD1 d b = Some r -> Codec_parse_with AD2 d b = Some r.
+  Lemma Codec_parse_sub : forall d b r, Codec_parse_with AD1 ST1 d b = Some r -> Codec_parse_with AD2 ST2 d b = Some r.
   Proof.
     unfold Codec_parse_with. intros d b r H.
-    destruct (Codec_dec_wire AD1 d [] b) as [[e rest]|] eqn:D; try discriminate. rewrite (Codec_dec_wire_sub _ _ _ _ D). exact H.
+    destruct (Codec_dec_wire AD1 ST1 d [] b) as [[e rest]|] eqn:D; try discriminate. rewrite (Codec_dec_wire_sub _ _ _ _ D). exact H.
   Qed.
 End Refine.
 
@@ -676,13 +1140,16 @@ End Refine.
 Lemma Codec_dec_items_nots : forall its b r, existsb Codec_item_uses_ts its = false ->
   Codec_dec_items Codec_adec its b = Some r -> Codec_dec_items Codec_adec_nots its b = Some r.
 Proof.
-  induction its as [|[id k a | ps] its IH]; intros b r U H; cbn [Codec_dec_items existsb] in *; auto.
+  induction its as [|[id k a | ps | id n] its IH]; intros b r U H; cbn [Codec_dec_items existsb] in *; auto.
   - apply orb_false_iff in U as [U1 U2].
     destruct (Codec_take (Codec_ksize k) b) as [[h t]|]; try discriminate.
     assert (E : Codec_adec_nots a (Codec_kdec k h) = Codec_adec a (Codec_kdec k h)) by (destruct a; try reflexivity; discriminate U1).
     rewrite E. destruct (Codec_adec a (Codec_kdec k h)); try discriminate.
     destruct (Codec_dec_items Codec_adec its t) as [[e rest]|] eqn:R; try discriminate. rewrite (IH _ _ U2 R). exact H.
   - apply orb_false_iff in U as [_ U2]. destruct (Codec_take (length ps) b) as [[h t]|]; try discriminate. auto.
+  - apply orb_false_iff in U as [_ U2]. destruct (Codec_take n b) as [[h t]|]; try discriminate.
+    destruct (Codec_str_dec h); try discriminate.
+    destruct (Codec_dec_items Codec_adec its t) as [[e rest]|] eqn:R; try discriminate. rewrite (IH _ _ U2 R). exact H.
 Qed.
 Lemma Codec_dec_recs_nots : forall its n b r, existsb Codec_item_uses_ts its = false ->
   Codec_dec_recs Codec_adec its n b = Some r -> Codec_dec_recs Codec_adec_nots its n b = Some r.
@@ -691,21 +1158,67 @@ Proof.
   destruct (Codec_dec_items Codec_adec its b) as [[x t]|] eqn:I; try discriminate. rewrite (Codec_dec_items_nots _ _ _ U I).
   destruct (Codec_dec_recs Codec_adec its n t) as [[rs rest]|] eqn:R; try discriminate. rewrite (IHn _ _ U R). exact H.
 Qed.
-Lemma Codec_dec_wire_nots : forall d acc b r, Codec_uses_ts d = false ->
-  Codec_dec_wire Codec_adec d acc b = Some r -> Codec_dec_wire Codec_adec_nots d acc b = Some r.
+Lemma Codec_cases_nots : forall cases t its, Codec_cases_use_ts cases = false -> Codec_assoc t cases = Some its -> existsb Codec_item_uses_ts its = false.
+Proof.
+  induction cases as [|[v x] cases IH]; intros t its U A; cbn in *; try discriminate.
+  apply orb_false_iff in U as [U1 U2]. destruct (t =? v). inversion A; subst; auto. eapply IH; eauto.
+Qed.
+Lemma Codec_tag_dec_nots : forall ST s acc R v, Codec_wire_uses_ts (WTagged 0%N s) = false ->
+  Codec_tag_dec Codec_adec ST s acc R = Some v -> Codec_tag_dec Codec_adec_nots ST s acc R = Some v.
+Proof.
+  intros ST s acc R v U H. cbn in U. apply orb_false_iff in U as [Uc Us]. unfold Codec_tag_dec in *.
+  destruct (Codec_lookup_int acc (tg_tag s)) as [t|]; try discriminate.
+  destruct (Codec_skip_flag s acc) as [skip|]; try discriminate.
+  destruct (tg_sub s) as [[[[tv hit] sid] subcases]|].
+  - apply orb_false_iff in Us as [Uh Usc]. destruct (t =? tv).
+    + destruct (Codec_dec_items Codec_adec hit R) as [[rh R1]|] eqn:DH; try discriminate. rewrite (Codec_dec_items_nots _ _ _ Uh DH).
+      destruct (Codec_rec_int rh sid) as [sv|]; try discriminate.
+      destruct (Codec_assoc sv subcases) as [oitems|] eqn:A; auto. destruct skip; auto.
+      destruct (tg_opaque s && (length R1 <? Codec_items_size oitems)%nat); auto.
+      destruct (Codec_dec_items Codec_adec oitems R1) as [[ro lft]|] eqn:DO; try discriminate.
+      rewrite (Codec_dec_items_nots _ _ _ (Codec_cases_nots _ _ _ Usc A) DO). exact H.
+    + destruct (Codec_assoc t (tg_cases s)) as [oitems|] eqn:A; auto. destruct skip; auto.
+      destruct (tg_opaque s && (length R <? Codec_items_size oitems)%nat); auto.
+      destruct (Codec_dec_items Codec_adec oitems R) as [[ro lft]|] eqn:DO; try discriminate.
+      rewrite (Codec_dec_items_nots _ _ _ (Codec_cases_nots _ _ _ Uc A) DO). exact H.
+  - destruct (Codec_assoc t (tg_cases s)) as [oitems|] eqn:A; auto. destruct skip; auto.
+    destruct (tg_opaque s && (length R <? Codec_items_size oitems)%nat); auto.
+    destruct (Codec_dec_items Codec_adec oitems R) as [[ro lft]|] eqn:DO; try discriminate.
+    rewrite (Codec_dec_items_nots _ _ _ (Codec_cases_nots _ _ _ Uc A) DO). exact H.
+Qed.
+Lemma Codec_dec_wire_nots : forall ST d acc b r, Codec_uses_ts d = false ->
+  Codec_dec_wire Codec_adec ST d acc b = Some r -> Codec_dec_wire Codec_adec_nots ST d acc b = Some r.
 Proof.
   induction d as [|w d IH]; intros acc b r U H; cbn [Codec_dec_wire] in *; auto.
   unfold Codec_uses_ts in U. cbn [existsb] in U. apply orb_false_iff in U as [U1 U2].
-  destruct (Codec_dec_one Codec_adec w acc b) as [[ents b']|] eqn:O; try discriminate.
-  assert (O' : Codec_dec_one Codec_adec_nots w acc b = Some (ents, b')).
-  { destruct w as [it | id cnt body | id l]; cbn [Codec_dec_one] in *; auto.
+  destruct (Codec_dec_one Codec_adec ST w acc b) as [[ents b']|] eqn:O; try discriminate.
+  assert (O' : Codec_dec_one Codec_adec_nots ST w acc b = Some (ents, b')).
+  { destruct w as [it | id cnt body | id l m | id tag cases | id s]; cbn [Codec_dec_one] in *; auto.
     - destruct (Codec_dec_items Codec_adec [it] b) as [[x t]|] eqn:I; try discriminate.
-      rewrite (Codec_dec_items_nots [it] b _ ltac:(cbn; rewrite U1; reflexivity) I). exact O.
+      rewrite (Codec_dec_items_nots [it] b _ ltac:(cbn in U1 |- *; rewrite U1; reflexivity) I). exact O.
     - destruct (Codec_count acc cnt b); try discriminate.
       destruct (Codec_dec_recs Codec_adec body n b) as [[rs t]|] eqn:R; try discriminate.
-      rewrite (Codec_dec_recs_nots _ _ _ _ U1 R). exact O. }
-  rewrite O'. destruct (Codec_dec_wire Codec_adec d (acc ++ ents) b') as [[e rest]|] eqn:R; try discriminate.
+      cbn in U1. rewrite (Codec_dec_recs_nots _ _ _ _ U1 R). exact O.
+    - destruct (Codec_lookup_int acc tag); try discriminate. destruct (Codec_assoc z cases) eqn:A; auto.
+      destruct (Codec_dec_items Codec_adec l b) as [[x rest]|] eqn:I; try discriminate.
+      cbn in U1. rewrite (Codec_dec_items_nots _ _ _ (Codec_cases_nots _ _ _ U1 A) I). exact O.
+    - destruct (Codec_count acc (tg_len s) b); try discriminate. destruct (Codec_take n b) as [[R t]|]; try discriminate.
+      destruct (Codec_tag_dec Codec_adec ST s acc R) eqn:TD; try discriminate.
+      rewrite (Codec_tag_dec_nots _ _ _ _ _ U1 TD). exact O. }
+  rewrite O'. destruct (Codec_dec_wire Codec_adec ST d (acc ++ ents) b') as [[e rest]|] eqn:R; try discriminate.
   rewrite (IH _ _ _ U2 R). exact H.
+Qed.
+
+(* layouts without lenient parts: the strict and the lenient decoder coincide *)
+Lemma Codec_dec_wire_rigid : forall AD d acc b, Codec_rigid d = true ->
+  Codec_dec_wire AD false d acc b = Codec_dec_wire AD true d acc b.
+Proof.
+  induction d as [|w d IH]; intros acc b G; cbn [Codec_dec_wire]; auto.
+  unfold Codec_rigid in G. cbn [forallb] in G. apply andb_true_iff in G as [G1 G2].
+  assert (E : Codec_dec_one AD false w acc b = Codec_dec_one AD true w acc b).
+  { destruct w as [it | id cnt body | id l m | id tag cases | id s]; try reflexivity; try discriminate G1.
+    destruct m; try discriminate G1; reflexivity. }
+  rewrite E. destruct (Codec_dec_one AD true w acc b) as [[ents b']|]; auto. rewrite (IH _ _ G2). reflexivity.
 Qed.
 
 (* ------------------------------------------------------------------------------------------------ *)
@@ -714,11 +1227,12 @@ Qed.
 
 Section Offsets.
   Variable AD : Codec_adapter -> Z -> option Codec_fval.
+  Variable ST : bool.
 
   Lemma Codec_dec_items_post : forall its b r rest post, Codec_dec_items AD its b = Some (r, rest) ->
     Codec_dec_items AD its (b ++ post) = Some (r, rest ++ post).
   Proof.
-    induction its as [|[id k a | ps] its IH]; intros b r rest post H; cbn [Codec_dec_items] in *.
+    induction its as [|[id k a | ps | id n] its IH]; intros b r rest post H; cbn [Codec_dec_items] in *.
     - inversion H; reflexivity.
     - destruct (Codec_take (Codec_ksize k) b) as [[h t]|] eqn:T; try discriminate.
       rewrite (Codec_take_app_post _ _ _ _ post T). destruct (AD a (Codec_kdec k h)); try discriminate.
@@ -726,6 +1240,10 @@ Section Offsets.
       rewrite (IH _ _ _ post R). reflexivity.
     - destruct (Codec_take (length ps) b) as [[h t]|] eqn:T; try discriminate.
       rewrite (Codec_take_app_post _ _ _ _ post T). auto.
+    - destruct (Codec_take n b) as [[h t]|] eqn:T; try discriminate.
+      rewrite (Codec_take_app_post _ _ _ _ post T). destruct (Codec_str_dec h); try discriminate.
+      destruct (Codec_dec_items AD its t) as [[e rest']|] eqn:R; try discriminate. inversion H; subst.
+      rewrite (IH _ _ _ post R). reflexivity.
   Qed.
   Lemma Codec_dec_recs_post : forall its n b rs rest post, Codec_dec_recs AD its n b = Some (rs, rest) ->
     Codec_dec_recs AD its n (b ++ post) = Some (rs, rest ++ post).
@@ -743,43 +1261,53 @@ Section Offsets.
     rewrite app_length. replace ((c <? 0) || (Z.of_nat (length b + length post) <? c)) with false by lia. exact H.
   Qed.
   Lemma Codec_dec_one_post : forall w acc b ents b' post, Codec_is_greedy w = false ->
-    Codec_dec_one AD w acc b = Some (ents, b') -> Codec_dec_one AD w acc (b ++ post) = Some (ents, b' ++ post).
+    Codec_dec_one AD ST w acc b = Some (ents, b') -> Codec_dec_one AD ST w acc (b ++ post) = Some (ents, b' ++ post).
   Proof.
-    intros [it | id cnt body | id l] acc b ents b' post G H; cbn [Codec_dec_one] in *.
+    intros [it | id cnt body | id l m | id tag cases | id s] acc b ents b' post G H; cbn [Codec_dec_one] in *.
     - destruct (Codec_dec_items AD [it] b) as [[x t]|] eqn:I; try discriminate. rewrite (Codec_dec_items_post _ _ _ _ post I).
       inversion H; reflexivity.
     - destruct (Codec_count acc cnt b) eqn:C; try discriminate. rewrite (Codec_count_post _ _ _ _ post C).
       destruct (Codec_dec_recs AD body n b) as [[rs t]|] eqn:R; try discriminate. rewrite (Codec_dec_recs_post _ _ _ _ _ post R).
       inversion H; reflexivity.
     - destruct l; try discriminate G.
-      + destruct (Codec_take n b) as [[h t]|] eqn:T; try discriminate. rewrite (Codec_take_app_post _ _ _ _ post T). inversion H; reflexivity.
+      + destruct (Codec_take n b) as [[h t]|] eqn:T; try discriminate. rewrite (Codec_take_app_post _ _ _ _ post T).
+        destruct (Codec_bdec ST acc m h); try discriminate. inversion H; reflexivity.
       + destruct (Codec_count acc cnt b) eqn:C; try discriminate. rewrite (Codec_count_post _ _ _ _ post C).
-        destruct (Codec_take n b) as [[h t]|] eqn:T; try discriminate. rewrite (Codec_take_app_post _ _ _ _ post T). inversion H; reflexivity.
+        destruct (Codec_take n b) as [[h t]|] eqn:T; try discriminate. rewrite (Codec_take_app_post _ _ _ _ post T).
+        destruct (Codec_bdec ST acc m h); try discriminate. inversion H; reflexivity.
+    - destruct (Codec_lookup_int acc tag); try discriminate. destruct (Codec_assoc z cases).
+      + destruct (Codec_dec_items AD l b) as [[x rest]|] eqn:I; try discriminate. rewrite (Codec_dec_items_post _ _ _ _ post I).
+        inversion H; reflexivity.
+      + inversion H; reflexivity.
+    - destruct (Codec_count acc (tg_len s) b) eqn:C; try discriminate. rewrite (Codec_count_post _ _ _ _ post C).
+      destruct (Codec_take n b) as [[R t]|] eqn:T; try discriminate. rewrite (Codec_take_app_post _ _ _ _ post T).
+      destruct (Codec_tag_dec AD ST s acc R); try discriminate. inversion H; reflexivity.
   Qed.
   Lemma Codec_dec_wire_post : forall d acc b e rest post, Codec_nogreedy d = true ->
-    Codec_dec_wire AD d acc b = Some (e, rest) -> Codec_dec_wire AD d acc (b ++ post) = Some (e, rest ++ post).
+    Codec_dec_wire AD ST d acc b = Some (e, rest) -> Codec_dec_wire AD ST d acc (b ++ post) = Some (e, rest ++ post).
   Proof.
     induction d as [|w d IH]; intros acc b e rest post G H; cbn [Codec_dec_wire] in *.
     - inversion H; reflexivity.
     - rewrite Codec_nogreedy_cons in G. apply andb_true_iff in G as [G1 G2]. apply negb_true_iff in G1.
-      destruct (Codec_dec_one AD w acc b) as [[ents b']|] eqn:O; try discriminate.
+      destruct (Codec_dec_one AD ST w acc b) as [[ents b']|] eqn:O; try discriminate.
       rewrite (Codec_dec_one_post _ _ _ _ _ post G1 O).
-      destruct (Codec_dec_wire AD d (acc ++ ents) b') as [[e' rest']|] eqn:R; try discriminate. inversion H; subst.
+      destruct (Codec_dec_wire AD ST d (acc ++ ents) b') as [[e' rest']|] eqn:R; try discriminate. inversion H; subst.
       rewrite (IH _ _ _ _ post G2 R). reflexivity.
   Qed.
 
   (* a layout with a greedy tail consumes everything it is given *)
   Lemma Codec_greedy_all : forall d seen acc b e rest, Codec_wf_from d seen = true -> Codec_nogreedy d = false ->
-    Codec_dec_wire AD d acc b = Some (e, rest) -> rest = [].
+    Codec_dec_wire AD ST d acc b = Some (e, rest) -> rest = [].
   Proof.
     induction d as [|w d IH]; intros seen acc b e rest W G H.
     - discriminate G.
-    - cbn [Codec_dec_wire] in H. destruct (Codec_wf_from_cons _ _ _ W) as (_ & _ & Wg & W').
-      destruct (Codec_dec_one AD w acc b) as [[ents b']|] eqn:O; try discriminate.
-      destruct (Codec_dec_wire AD d (acc ++ ents) b') as [[e' rest']|] eqn:R; try discriminate. inversion H; subst.
+    - cbn [Codec_dec_wire] in H. destruct (Codec_wf_from_cons _ _ _ W) as (_ & _ & _ & _ & _ & Wg & W').
+      destruct (Codec_dec_one AD ST w acc b) as [[ents b']|] eqn:O; try discriminate.
+      destruct (Codec_dec_wire AD ST d (acc ++ ents) b') as [[e' rest']|] eqn:R; try discriminate. inversion H; subst.
       rewrite Codec_nogreedy_cons in G. destruct (Codec_is_greedy w) eqn:Gw.
       + specialize (Wg eq_refl). subst d. cbn in R. inversion R; subst.
-        destruct w as [|? ? ?|? []]; try discriminate Gw. cbn in O. inversion O; reflexivity.
+        destruct w as [| | ? [] ? | |]; try discriminate Gw. cbn in O.
+        destruct (Codec_bdec ST acc m b); try discriminate. inversion O; reflexivity.
       + cbn in G. eapply IH; eauto.
   Qed.
 End Offsets.
@@ -791,8 +1319,8 @@ Proof.
   replace (length pre + length (b ++ post) <? length pre)%nat with false by lia.
   rewrite skipn_app, skipn_all, Nat.sub_diag. cbn [app skipn].
   unfold Codec_parse, Codec_parse_with in *.
-  destruct (Codec_dec_wire Codec_adec d [] b) as [[e0 rest]|] eqn:D; try discriminate. inversion P; subst.
-  rewrite (Codec_dec_wire_post _ _ _ _ _ _ post G D). rewrite !app_length. f_equal. f_equal. lia.
+  destruct (Codec_dec_wire Codec_adec false d [] b) as [[e0 rest]|] eqn:D; try discriminate. inversion P; subst.
+  rewrite (Codec_dec_wire_post _ _ _ _ _ _ _ post G D). rewrite !app_length. f_equal. f_equal. lia.
 Qed.
 
 Theorem Codec_pack_into_spec : forall buf off b1 r, Codec_pack_into buf off b1 = Some r ->
